@@ -138,7 +138,11 @@ pub const EPS: &[Ep] = &[
 const SCALE_UNITS: &[&str] = &[
     "a\n", " \n", ":", "a | ", "a (", "<x> ", "# c\n", "-", "é", ", ", "a: b\n c\n", "\n", "${", "a [", "a <", "(>= 1) ", "-----BEGIN PGP SIGNED MESSAGE-----\n", "a:\n", " a\n", "\r", "a, ", "[x] ", " -b ", "<", "a=b ",
     "Files: *\n\n", "Package: a\n\n", "a (>= 1:1) | ", "\t", "a b ",
+    // closers and separators without an opener: one syntax error each
+    ")", "]", ">", "}", "|", ",", "(", "!", "=", "a, )",
 ];
+/// sizes of the scaling inputs; the largest one makes an error-per-token unit produce more than 65 536 errors / tokens
+const SCALE_SIZES: [usize; 4] = [1024, 4096, 16384, 98304];
 
 const SMALL_TOKENS: &[&str] = &[
     "https://salsa.debian.org/x/y.git", " -b ", "debian/main", " [", "sub/path", "]", "Joe Example", " <", "joe@example.com", ">", "@", "optional", "required", "same", "foreign", "low", "HIGH", ">=", "<<", "=", "!",
@@ -265,7 +269,7 @@ fn family_text(t: &mut Tape, fam: usize) -> (String, &'static str) {
         4 => (text::weighted_text(t, c01::WEIGHTED, 300), "raw-unicode"),
         _ => {
             let unit = *t.pick(SCALE_UNITS);
-            let size = *t.pick(&[1024usize, 4096, 16384]);
+            let size = *t.pick(&SCALE_SIZES);
             let n = size / unit.len().max(1);
             let mut s = unit.repeat(n);
             if t.chance(1, 3) {
@@ -285,7 +289,7 @@ impl PropImpl for C02 {
         format!(
             "a case is (entry point, text) over {} text-to-value entry points of the five crates; texts come from six families chosen per entry point (deb822-shaped: typed documents of 9 kinds / generic documents, valid, mutated, \
              with one value replaced by garbage, or cut at any character; relation-shaped: generated fields in any layout, every prefix, mutations, token soup; PGP-shaped line mixes incl. CRLF; small-token mixes for VCS / identity / \
-             checksum / keyword readers; raw Unicode incl. controls; scaling: a pathological unit repeated to 1/4/16 KiB). (E) every string of length <= 3 over the 14 deb822 class representatives and over the 19 relation symbols \
+             checksum / keyword readers; raw Unicode incl. controls; scaling: a pathological unit repeated to 1/4/16/96 KiB). (E) every string of length <= 3 over the 14 deb822 class representatives and over the 19 relation symbols \
              is given to EVERY entry point. Oracle: the call returns (Ok or Err) without panic, within 20 CPU-seconds and 2 GiB (worker watchdog). Non-trivial: a text with >= 2 lexical items that is not a verbatim corpus seed; \
              distinct by (entry point, text) hash. The label histogram lists per entry point how many inputs returned Ok and Err.",
             EPS.len()
@@ -315,7 +319,7 @@ impl PropImpl for C02 {
         vec![
             Space { name: format!("every entry point x all strings of length <= {} over 14 deb822 class representatives", l), size: EPS.len() as u64 * text::space_size(14, l), exhaustive: true },
             Space { name: format!("every entry point x all strings of length <= {} over 19 relation symbols", l), size: EPS.len() as u64 * text::space_size(19, l), exhaustive: true },
-            Space { name: "every entry point x every scaling unit x {1,4,16} KiB".into(), size: (EPS.len() * SCALE_UNITS.len() * 3) as u64, exhaustive: true },
+            Space { name: "every entry point x every scaling unit x {1,4,16,96} KiB".into(), size: (EPS.len() * SCALE_UNITS.len() * SCALE_SIZES.len()) as u64, exhaustive: true },
         ]
     }
     fn from_enum(&self, _ctx: &mut Ctx, tier: Tier, space: usize, index: u64) -> Case {
@@ -326,8 +330,8 @@ impl PropImpl for C02 {
             0 => Case { ep, text: text::nth_string(c01::ALPHABET, l, i), family: "enum:deb822-alphabet" },
             1 => Case { ep, text: text::nth_string(c09::ALPHABET, l, i), family: "enum:relation-alphabet" },
             _ => {
-                let unit = SCALE_UNITS[(i / 3) as usize];
-                let size = [1024usize, 4096, 16384][(i % 3) as usize];
+                let unit = SCALE_UNITS[(i / SCALE_SIZES.len() as u64) as usize];
+                let size = SCALE_SIZES[(i % SCALE_SIZES.len() as u64) as usize];
                 Case { ep, text: unit.repeat(size / unit.len().max(1)), family: "scaling" }
             }
         }
